@@ -225,6 +225,7 @@ def export(g: int, x: int, bx: int, z: int, k: int, entry: int, t: int) -> bool:
     _set_vals(m, vals, False)
     _set_vals(inst, vals, True)
     for q in queries:
+        label("compare %s" % _qkey(q, t))
         a = _eval_side(m, q, t, False)
         reraise_control_last()
         b = _eval_side(inst, q, t, True)
